@@ -7,11 +7,63 @@ import RoaringModel.TreemapFmt
 namespace Roaring.Driver
 open Roaring
 
+
+/-- maximal runs of consecutive values of an ascending list -/
+def runsOf (l : List Nat) : List (Nat × Nat) :=
+  (l.foldl (fun (acc : List (Nat × Nat)) v =>
+    match acc with
+    | (a, z) :: rest => if z + 1 == v then (a, v) :: rest else (v, v) :: acc
+    | [] => [(v, v)]) []).reverse
+
+/-- the first three and the last three runs -/
+def pickRuns (rs : List (Nat × Nat)) : List (Nat × Nat) :=
+  if rs.length ≤ 6 then rs else rs.take 3 ++ rs.drop (rs.length - 3)
+
+/-- `probe`: the battery of queries derived from the runs of the value itself (see harness exec/extra.rs) -/
+def probeStr (els : List Nat) (cr : Nat → Nat → Bool) (ct : Nat → Bool) (rc : Nat → Nat → Nat) (rank : Nat → Nat)
+    (sel : Nat → Option Nat) : String :=
+  let runs := runsOf els
+  let m := 4294967295
+  let selS := fun (n : Nat) (pred : Bool) =>
+    if pred then (if n = 0 then "none" else if n - 1 > m then "none" else showOpt (sel (n - 1)))
+    else (if n > m then "none" else showOpt (sel n))
+  (pickRuns runs).foldl (fun o (a, z) =>
+    let ra := rank a; let rz := rank z
+    o ++ s!" {a}..{z}:{showBool (cr a z)}"
+      ++ (if z < m then s!",{showBool (cr a (z+1))},{showBool (ct (z+1))}" else ",-,-")
+      ++ (if a > 0 then s!",{showBool (cr (a-1) z)}" else ",-")
+      ++ s!",{rc a z},{ra},{rz},{selS ra true},{selS rz true},{selS rz false}") s!"runs={runs.length}"
+
+def tprobeStr (els : List Nat) (ct : Nat → Bool) (rank : Nat → Nat) (sel : Nat → String) : String :=
+  let runs := runsOf els
+  let m := 18446744073709551615
+  let selS := fun (n : Nat) (pred : Bool) =>
+    if pred then (if n = 0 then "none" else sel (n - 1)) else (if n > m then "none" else sel n)
+  (pickRuns runs).foldl (fun o (a, z) =>
+    let ra := rank a; let rz := rank z
+    o ++ s!" {a}..{z}:{showBool (ct a)}"
+      ++ (if z < m then s!",{showBool (ct (z+1))}" else ",-")
+      ++ (if a > 0 then s!",{showBool (ct (a-1))},{rank (a-1)}" else ",-,-")
+      ++ s!",{ra},{rz},{selS ra true},{selS rz true},{selS rz false}") s!"runs={runs.length}"
+
 def opsExtra : Handler := fun st toks =>
   let b? (t : String) := (parseSlot 'b' t).bind fun i => (st.getB i).map fun s => (i, s)
   let t? (t : String) := (parseTSlot 't' t).bind fun i => (st.getT i).map fun s => (i, s)
   let j? (t : String) := (parseTSlot 'j' t).bind fun i => (st.getJ i).map fun s => (i, s)
   match toks with
+  | ["probe", d] => do
+    let (_, sl) ← b? d
+    let mo := probeStr (Bitmap.elems sl.m) (fun a z => Bitmap.containsRange sl.m (.incl a) (.incl z)) (Bitmap.contains sl.m)
+      (fun a z => Bitmap.rangeCardinality sl.m (.incl a) (.incl z)) (Bitmap.rank sl.m) (Bitmap.select sl.m)
+    let so := probeStr sl.s (fun a z => Spec.containsRange u32Max sl.s (.incl a) (.incl z)) (Spec.contains sl.s)
+      (fun a z => Spec.rangeCardinality u32Max sl.s (.incl a) (.incl z)) (Spec.rank sl.s) (Spec.select sl.s)
+    pure (st, specMark mo so)
+  | ["tprobe", d] => do
+    let (_, sl) ← t? d
+    let mo := tprobeStr (Treemap.elems sl.m) (Treemap.contains sl.m) (Treemap.rank sl.m)
+      (fun n => match Treemap.select sl.m n with | some r => showOpt r | none => "panic")
+    let so := tprobeStr sl.s (Spec.contains sl.s) (Spec.rank sl.s) (fun n => showOpt (Spec.select sl.s n))
+    pure (st, specMark mo so)
   | ["clone_from", d, s] => do
     let (i, _) ← b? d; let (_, sl) ← b? s
     pure (st.setB i sl, "ok")
